@@ -1,6 +1,7 @@
 package main
 
 import (
+	"math/big"
 	"os"
 	"fmt"
 	"strings"
@@ -450,6 +451,11 @@ func (ex *Exec) bechRank(e *Enc) *Term {
 		return r.rank
 	}
 	r := f.Var("bechrank!"+key, SInt, nil, nil)
+	if c, ok := bechConcreteRank(e.Data); ok {
+		// concrete 20-byte payload: the rank is the real text of the data part (the human-readable prefix is the same
+		// for one kind and the checksum follows the data part, so it never decides between different payloads)
+		r = f.Int(c)
+	}
 	// injectivity against the ranks created so far
 	for _, o := range ex.ranks {
 		if o.kind != e.Kind || len(o.data) != len(e.Data) {
@@ -460,6 +466,36 @@ func (ex *Exec) bechRank(e *Enc) *Term {
 	ex.ranks[key] = &rankEntry{kind: e.Kind, data: e.Data, rank: r}
 	ex.noteAssumption("lexicographic order of two bech32 / two EIP-55 hex address strings is abstracted to an arbitrary strict total order over the address bytes (over-approximation)")
 	return r
+}
+
+// bechConcreteRank: for a concrete 20-byte payload, the bech32 characters of the data part read as a base-256 number
+// (the order of these numbers is the lexicographic order of the address strings of one kind).
+func bechConcreteRank(data []*Term) (*big.Int, bool) {
+	if len(data) != 20 {
+		return nil, false
+	}
+	acc, bits := 0, 0
+	r := new(big.Int)
+	push := func(g int) {
+		r.Lsh(r, 8)
+		r.Add(r, big.NewInt(int64(bech32Charset[g])))
+	}
+	for _, t := range data {
+		if !t.IsConst() || !t.C.IsInt64() || t.C.Int64() < 0 || t.C.Int64() > 255 {
+			return nil, false
+		}
+		acc = acc<<8 | int(t.C.Int64())
+		bits += 8
+		for bits >= 5 {
+			bits -= 5
+			push((acc >> uint(bits)) & 31)
+		}
+		acc &= (1 << uint(bits)) - 1
+	}
+	if bits > 0 {
+		push((acc << uint(5-bits)) & 31)
+	}
+	return r, true
 }
 
 type rankEntry struct {
